@@ -341,11 +341,15 @@ theorem ok_mainItems {v : Variant} (hv : v ≠ .forked) {cs : List Chunk} : ∀ 
   · split at hx <;> simp at hx
     subst hx; rfl
 
-theorem saverProg_eq (v : Variant) (cs : List Chunk) : saverProg v {} cs = initItems ++ (mainItems v cs ++ closeItems) := by
-  simp [saverProg, mainItems, List.append_assoc]
+theorem saverProg_eq (v : Variant) (hv : v ≠ .forked) (cs : List Chunk) :
+    saverProg v {} cs = initItems ++ (mainItems v cs ++ closeItems) := by
+  cases v with
+  | forked => exact absurd rfl hv
+  | serial => simp [saverProg, mainItems, List.append_assoc]
+  | executor => simp [saverProg, mainItems, List.append_assoc]
 
 theorem shape_saverProg (v : Variant) (hv : v ≠ .forked) (cs : List Chunk) : Shape (saverProg v {} cs) := by
-  rw [saverProg_eq]
+  rw [saverProg_eq v hv]
   have hmc := shape_mid_close (mid := mainItems v cs) rank_mainItems (ok_mainItems hv)
   have hin : ∀ x ∈ initItems, rank x ≤ 15 ∧ okItem x = true := by
     intro x hx
